@@ -85,10 +85,13 @@ type call struct {
 	Objs  []int `json:"objs"` // object indices, in the order of the scheduler's sorted array
 	OK    bool  `json:"ok"`
 	Batch bool  `json:"batch"`
+	done  bool
 }
 
 // failStor wraps the real main storage (an FSTree); Put/PutBatch take some
-// virtual time and fail according to the current policy.
+// virtual time and fail according to the current policy. While the storage is
+// held (hold .. release) every call blocks: the flush worker that made it keeps
+// its batch in flight for as long as the script wants, scheduler ticks go on.
 type failStor struct {
 	common.Storage
 	mu      sync.Mutex
@@ -98,6 +101,9 @@ type failStor struct {
 	poison  map[int]bool
 	failSeq []bool // per-call outcomes consumed first (true = fail)
 	delay   time.Duration
+	held    bool
+	relCh   chan struct{} // closed by release; made inside the bubble
+	waiting int           // calls blocked by the hold
 	inCall  int
 	calls   []*call
 	yield   func()
@@ -114,6 +120,15 @@ func (s *failStor) begin(objs []int, batch bool) (*call, bool) {
 	c := &call{Objs: objs, Batch: batch}
 	s.calls = append(s.calls, c)
 	s.inCall++
+	if s.held {
+		ch := s.relCh
+		s.waiting++
+		s.mu.Unlock()
+		<-ch
+		s.mu.Lock()
+		s.waiting--
+	}
+	// the policy at the time the storage answers
 	fail := s.failAll
 	for _, o := range objs {
 		if s.poison[o] {
@@ -135,8 +150,56 @@ func (s *failStor) begin(objs []int, batch bool) (*call, bool) {
 func (s *failStor) end(c *call, ok bool) {
 	s.mu.Lock()
 	c.OK = ok
+	c.done = true
 	s.inCall--
 	s.mu.Unlock()
+}
+
+// hold makes every storage call from now on block until release.
+func (s *failStor) hold() {
+	s.mu.Lock()
+	if !s.held {
+		s.held = true
+		s.relCh = make(chan struct{})
+	}
+	s.mu.Unlock()
+}
+
+func (s *failStor) release() {
+	s.mu.Lock()
+	if s.held {
+		s.held = false
+		close(s.relCh)
+	}
+	s.mu.Unlock()
+}
+
+func (s *failStor) isHeld() bool {
+	s.mu.Lock()
+	defer s.mu.Unlock()
+	return s.held
+}
+
+// pending: the batches of the calls that have begun and not finished (blocked by a hold), canonical order.
+func (s *failStor) pending() [][]int {
+	s.mu.Lock()
+	defer s.mu.Unlock()
+	res := [][]int{}
+	for _, c := range s.calls {
+		if !c.done {
+			res = append(res, append([]int{}, c.Objs...))
+		}
+	}
+	sort.Slice(res, func(a, b int) bool {
+		x, y := res[a], res[b]
+		for i := 0; i < len(x) && i < len(y); i++ {
+			if x[i] != y[i] {
+				return x[i] < y[i]
+			}
+		}
+		return len(x) < len(y)
+	})
+	return res
 }
 
 func (s *failStor) Put(a oid.Address, data []byte) error {
@@ -170,18 +233,24 @@ func (s *failStor) PutBatch(m map[oid.Address][]byte) error {
 func (s *failStor) takeCalls() []call {
 	s.mu.Lock()
 	defer s.mu.Unlock()
+	// finished calls only; the ones still in progress (blocked by a hold) are reported once they end
 	res := make([]call, 0, len(s.calls))
+	var rest []*call
 	for _, c := range s.calls {
-		res = append(res, *c)
+		if c.done {
+			res = append(res, *c)
+		} else {
+			rest = append(rest, c)
+		}
 	}
-	s.calls = nil
+	s.calls = rest
 	return res
 }
 
 func (s *failStor) busy() bool {
 	s.mu.Lock()
 	defer s.mu.Unlock()
-	return s.inCall > 0
+	return s.inCall-s.waiting > 0
 }
 
 func newMainStorage(dir string) *fstree.FSTree {
@@ -198,7 +267,7 @@ func must(err error) {
 }
 
 // quiesce waits until every goroutine of the bubble is durably blocked and no
-// storage call is in progress.
+// storage call is in progress other than the ones blocked by a hold.
 func quiesce(s *failStor) {
 	for k := 0; k < 1000; k++ {
 		synctest.Wait()
